@@ -149,4 +149,134 @@ theorem stepOk_lt {s : Store} {thr : List Thread} {u now : Nat} {th : Thread} (h
         exact stepOk_lt_miss hS hu hpc (by rw [hop]; trivial) (by rw [hop]; trivial) a' (by rw [hop]; exact hsc)
   · exact stepOk_stay hS hu hT
 
+/-! ## `nx`: read of `cur->next` -/
+
+/-- an item carried by a thread: that thread holds the top-level bucket of the item's key -/
+theorem inHand_holds {s : Store} {t : Nat} {op : Op} {pc : Pc} {y : Item} (h : TInv s t op pc) (hh : pc.inHand = some y) :
+    HoldsTop s t y.key ∧ ¬ Stored s y := by
+  cases pc with
+  | du hd pv it =>
+    obtain ⟨_, _, h3, _, _, _, _, h8, h9, _, _⟩ := h
+    cases hh; rw [h8]; exact ⟨h3, h9⟩
+  | cn hd pv nv it =>
+    obtain ⟨_, _, h3, _, _, _, _, h8, h9, _⟩ := h
+    cases hh; rw [h8]; exact ⟨h3, h9⟩
+  | idle => cases hh
+  | rd => cases hh
+  | lt => cases hh
+  | nx _ => cases hh
+  | lo _ _ => cases hh
+  | ulo _ _ => cases hh
+  | ult _ => cases hh
+  | rul _ _ _ => cases hh
+  | wr _ _ => cases hh
+  | wul _ => cases hh
+
+/-- a thread that holds the top-level bucket of `k`, carries nothing, and has seen `k` in no table: `k` is not in the map -/
+theorem key_absent {s : Store} {thr : List Thread} (hS : SInv s thr)
+    (hAll : ∀ (t : Nat) (a : Thread), thr[t]? = some a → TInv s t a.op a.pc)
+    {u : Nat} {th : Thread} (hu : thr[u]? = some th) (hh : th.pc.inHand = none) {k : Nat} (hl : HoldsTop s u k)
+    (hn : ∀ T, Tin s T → ¬ KeyIn s k T) : ∀ y, y ∈ s.abs → y.key ≠ k := by
+  intro y hy hk
+  rcases hS.ab.absOut y hy with h | h
+  · obtain ⟨T, b, hT, hm⟩ := h
+    have hb := hS.st.place T b y hT hm
+    rw [hk] at hb
+    exact hn T hT ⟨y, by rw [← hb]; exact hm, hk⟩
+  · obtain ⟨t, a, ha, _, hin⟩ := h
+    have := (inHand_holds (hAll t a ha) hin).1
+    rw [hk] at this
+    unfold HoldsTop at hl this
+    rw [hl] at this
+    have htu : u = t := Nat.succ.inj this
+    subst htu
+    rw [hu] at ha; cases ha
+    rw [hh] at hin; cases hin
+
+theorem stepOk_nx {s : Store} {thr : List Thread} {u now : Nat} {th : Thread} (hS : SInv s thr)
+    (hAll : ∀ (t : Nat) (a : Thread), thr[t]? = some a → TInv s t a.op a.pc) (hu : thr[u]? = some th)
+    {cur : Nat} (hpc : th.pc = .nx cur) (hT : TInv s u th.op th.pc) : StepOk s thr u (stepNx s u now th cur) := by
+  rw [hpc] at hT
+  obtain ⟨h1, h2, h3, h4, h5, h6⟩ := hT
+  have hcur : Tin s cur := ⟨h4, h5⟩
+  have hnx := hS.st.nxt cur hcur
+  have hnone : th.pc.inHand = none := by rw [hpc]; rfl
+  have hstat : (∀ k', ¬ PendIns th k') ∧ (∀ k', ¬ RmHold th k') :=
+    ⟨not_pendIns_of_pc (by rw [hpc]; simp) (by rw [hpc]; simp), not_rmHold_of_linRes (by rw [hpc]; rfl)⟩
+  unfold stepNx
+  split
+  · rename_i hz
+    have hall : ∀ T, Tin s T → ¬ KeyIn s th.op.key T := by
+      intro T hT
+      rcases Nat.lt_or_ge T cur with hlt | hge
+      · intro hk
+        obtain ⟨y, hy, _⟩ := hk
+        have := hS.st.skip cur T hcur (by rw [hz]; have := hT.1; have := hS.st.nb0; omega) hlt hT.1 (s.hf th.op.key T)
+        rw [this] at hy; cases hy
+      · exact h6 T hge hT.2
+    have habs := key_absent hS hAll hu hnone h3 hall
+    cases hop : th.op with
+    | foi k i =>
+      simp only
+      rw [hop] at h1 h3 habs
+      simp only [Op.key] at h3 habs
+      have a : Acq u s s (s.hf k s.top) := acq_refl h3
+      obtain ⟨p1, p2, p3, p4, p5⟩ := push_new hS hu a (it := ⟨k, i⟩) rfl habs { th with pc := .ult i, tLin := now }
+        hnone (fun T => by rw [hpc]; rfl)
+      have htb : tbk s th = s.hf k s.top := by unfold tbk; rw [hop]; rfl
+      rw [htb]
+      refine StepOk.mk' (pushNew s (s.hf k s.top) ⟨k, i⟩) { th with pc := .ult i, tLin := now } rfl rfl
+        ⟨p1, p2, p3, ?_, ?_⟩ ?_ (fun t ht _ _ _ => p5.rely ht)
+      · exact hS.excl.set_same hu _ (fun _ => by rw [hpc]; rfl) (fun h => by cases h)
+      · refine userInv_new_item (m := pushNew s (s.hf k s.top) ⟨k, i⟩) hS.user hu (it := ⟨k, i⟩) rfl rfl ?_ ?_ ?_ ?_
+        · intro hp; rw [h1] at hp; cases hp
+        · intro t a ha _
+          refine ⟨fun hp => ?_, fun hr => ?_⟩
+          · have := hS.user.uPlain k (hS.user.uIns t a k ha hp).1
+            rw [h1] at this; cases this
+          · have := hr.2.1; rw [h1] at this; cases this
+        · exact not_pendIns_of_pc (by simp) (by simp)
+        · intro k' hr; have := hr.1; simp only at this; rw [hop] at this; cases this
+      · show HoldsTop _ u th.op.key
+        rw [hop]; exact p4
+    | ins k i => rw [hop] at h2; exact h2.elim
+    | find k =>
+      simp only
+      refine StepOk.mk' s { th with pc := .ult 0, tLin := now } rfl rfl ⟨hS.st, ?_, ?_, ?_, ?_⟩ h3 (fun t _ _ _ _ => Rely.refl t s)
+      · exact hS.used.same hu _ rfl rfl (fun T _ => rfl) (fun T b _ => rfl) (fun T => by rw [hpc]; rfl)
+      · exact hS.ab.same hu _ (SameStore.refl s) rfl (fun y _ h => by rw [hnone] at h; cases h)
+      · exact hS.excl.set_same hu _ (fun _ => by rw [hpc]; rfl) (fun h => by cases h)
+      · refine hS.user.set_same hu (sameStatus_of_none hstat.1 hstat.2 (not_pendIns_of_pc (by simp) (by simp)) ?_)
+        intro k' hr; obtain ⟨_, _, r, hr1, hr2⟩ := hr; cases hr1; exact hr2 rfl
+    | rem k =>
+      simp only
+      refine StepOk.mk' s { th with pc := .ult 0, tLin := now } rfl rfl ⟨hS.st, ?_, ?_, ?_, ?_⟩ h3 (fun t _ _ _ _ => Rely.refl t s)
+      · exact hS.used.same hu _ rfl rfl (fun T _ => rfl) (fun T b _ => rfl) (fun T => by rw [hpc]; rfl)
+      · exact hS.ab.same hu _ (SameStore.refl s) rfl (fun y _ h => by rw [hnone] at h; cases h)
+      · exact hS.excl.set_same hu _ (fun _ => by rw [hpc]; rfl) (fun h => by cases h)
+      · refine hS.user.set_same hu (sameStatus_of_none hstat.1 hstat.2 (not_pendIns_of_pc (by simp) (by simp)) ?_)
+        intro k' hr; obtain ⟨_, _, r, hr1, hr2⟩ := hr; cases hr1; exact hr2 rfl
+  · rename_i hz
+    refine StepOk.mk' s (th.goto (.lo (s.tab cur).next cur)) rfl rfl ⟨hS.st, ?_, ?_, ?_, ?_⟩ ?_ (fun t _ _ _ _ => Rely.refl t s)
+    · exact hS.used.same hu _ rfl rfl (fun T _ => rfl) (fun T b _ => rfl) (fun T => by rw [hpc]; rfl)
+    · exact hS.ab.same hu _ (SameStore.refl s) rfl (fun y _ h => by rw [hnone] at h; cases h)
+    · exact hS.excl.set_same hu _ (fun _ => by rw [hpc]; rfl) (fun h => by cases h)
+    · exact hS.user.set_same hu (sameStatus_goto (by rw [hpc]; simp) (by rw [hpc]; rfl))
+    · show TInv s u th.op (.lo (s.tab cur).next cur)
+      refine ⟨h1, h2, h3, ?_, hnx.1, h5, ?_⟩
+      · rcases hnx.2 with h | h
+        · exact absurd h hz
+        · exact h
+      · intro T a b
+        rcases Nat.lt_or_ge T cur with hlt | hge
+        · intro hk
+          obtain ⟨y, hy, _⟩ := hk
+          have hnb : s.nb0 ≤ T := by
+            rcases hnx.2 with h | h
+            · exact absurd h hz
+            · omega
+          have := hS.st.skip cur T hcur (by omega) hlt hnb (s.hf th.op.key T)
+          rw [this] at hy; cases hy
+        · exact h6 T hge b
+
 end ParsecVerif.HashTable
